@@ -34,8 +34,8 @@ def load_known(prop: str) -> List[Dict[str, Any]]:
     if os.path.exists(KNOWN):
         for line in open(KNOWN):
             line = line.strip()
-            if not line or line.startswith("#"):
-                continue
+            if not line or line.startswith("#") or line.startswith("fixed:") or line.startswith("known:"):
+                continue  # plain-text summary lines (the JSON records carry the same information)
             d = json.loads(line)
             if d.get("property") == prop:
                 out.append(d)
